@@ -313,6 +313,9 @@ def _judge_counting(model):
             what = getattr(a[1], "what", "")
             if what == "COMMUTATIVE":
                 return isinstance(a[0], Tok) and a[0].cls_ in comm_names
+            _r = __import__("pv.absint", fromlist=["x"]).default_isinstance(a[0], a[1])
+            if _r is not None:
+                return _r
             raise AnalysisError(f"isinstance(..., {a[1]!r})")
 
         def attrs(it, n_, base, attr):
@@ -390,7 +393,12 @@ def _judge_counting(model):
 
 
 def _key_getter(ctx, model):
-    w1, _ = _judge_counting(model)
+    try:
+        w1, _ = _judge_counting(model)
+    except AnalysisError as e:
+        ctx.extra["judge_unavailable:NormalizedKeyGetter"] = str(e)
+        _key_getter_structural(ctx, model)
+        return
     kg_ = model.cls(f"{CSE}:NormalizedKeyGetter")
     ctx.ob("T0/NormalizedKeyGetter/key-semantics", not w1, kg_.loc(),
            "keys of 108 token nodes: equal exactly for commutative nodes of one "
@@ -462,7 +470,12 @@ def _key_getter_structural(ctx, model):
 
 
 def _use_count(ctx, model):
-    _, w2 = _judge_counting(model)
+    try:
+        _, w2 = _judge_counting(model)
+    except AnalysisError as e:
+        ctx.extra["judge_unavailable:UseCountMapper.visit"] = str(e)
+        _use_count_structural(ctx, model)
+        return
     uc_ = model.cls(f"{CSE}:UseCountMapper")
     ctx.ob("P0/UseCountMapper.visit/count-semantics", not w2, uc_.loc(),
            "visit interpreted on key sequences: True at the first encounter only, "
